@@ -347,7 +347,14 @@ func runC15ArgsParen(payload string, paren bool) string {
 	tags := fmt.Sprintf(" ### flag=%s nph=%d nargs=%d", flag, nph, len(vals))
 
 	ci.grabbed, ci.term = "", nil
-	sol := ci.i.QuerySolution("grab("+c15Text(toks, nil)+") .", args...)
+	// Query / QuerySolution read ONE term: text after its end token changes nothing — in particular it does
+	// not make surplus arguments acceptable (chosen by the payload, so that a case replays exactly)
+	h := 0
+	for _, c := range []byte(payload) {
+		h = (h*31 + int(c)) % 1000003
+	}
+	trail := []string{"", "", "", " true.", " t(?).", "\nfoo(?, ?) :- bar", " % tail", " ? . ? ."}[h%8]
+	sol := ci.i.QuerySolution("grab("+c15Text(toks, nil)+") ."+trail, args...)
 	if err := sol.Err(); err != nil {
 		msg := err.Error()
 		kind := "syntax"
